@@ -364,6 +364,9 @@ def lookup(lookup_value, lookup_array, result_range=None):
             result = result_range[0]
 
     if isinstance(match_idx, int):
+        if match_idx > len(result):
+            # a result vector which is shorter than the lookup vector
+            return REF_ERROR
         return result[match_idx - 1]
 
     else:
